@@ -154,14 +154,44 @@ def write_if_changed(path, text):
     os.makedirs(os.path.dirname(path), exist_ok=True)
     if os.path.exists(path) and open(path).read() == text:
         return False
-    with open(path, "w") as fh:
+    tmp = "%s.tmp%d" % (path, os.getpid())   # atomic: a concurrent coqdep/make of another property never sees half a file
+    with open(tmp, "w") as fh:
         fh.write(text)
+    os.replace(tmp, path)
     return True
 
 
+class _CoqLock:
+    """one Coq build at a time across concurrently running checks (they share coq/ and its Makefile / .Makefile.d);
+    re-entrant within a process"""
+    depth = 0
+    fh = None
+
+    def __enter__(self):
+        if _CoqLock.depth == 0:
+            os.makedirs(BUILD, exist_ok=True)
+            _CoqLock.fh = open(os.path.join(BUILD, "coq.lock"), "w")
+            import fcntl
+            fcntl.flock(_CoqLock.fh, fcntl.LOCK_EX)
+        _CoqLock.depth += 1
+
+    def __exit__(self, *a):
+        _CoqLock.depth -= 1
+        if _CoqLock.depth == 0:
+            import fcntl
+            fcntl.flock(_CoqLock.fh, fcntl.LOCK_UN)
+            _CoqLock.fh.close()
+            _CoqLock.fh = None
+
+
+def coq_lock():
+    return _CoqLock()
+
+
 def coq_make(targets, timeout=1500, jobs=16):
-    coq_prepare()
-    rc, so, se = sh(["make", "-j%d" % jobs] + list(targets), cwd=COQ, timeout=timeout)
+    with coq_lock():
+        coq_prepare()
+        rc, so, se = sh(["make", "-j%d" % jobs] + list(targets), cwd=COQ, timeout=timeout)
     if rc != 0:
         m = re.findall(r'File "\./([^"]+)", line (\d+)[^\n]*\n((?:.*\n){0,12})', so + se)
         where = "; ".join("%s:%s" % (a, b) for a, b, _ in m[:3]) or "make failed"
@@ -225,9 +255,10 @@ def coq_properties(prop):
     if missing:
         raise Broken("Properties/%s.v: no Print Assumptions for %s" % (prop, missing))
     deps_target = "Properties/%s.vo" % prop
-    coq_make([deps_target])
-    # run coqc again on the property file itself to capture the Print Assumptions output
-    rc, so, se = sh(["coqc", "-R", ".", "TX", "-w", "-notation-overridden", rel], cwd=COQ, timeout=600)
+    with coq_lock():
+        coq_make([deps_target])
+        # run coqc again on the property file itself to capture the Print Assumptions output
+        rc, so, se = sh(["coqc", "-R", ".", "TX", "-w", "-notation-overridden", rel], cwd=COQ, timeout=600)
     if rc != 0:
         raise Broken("coqc %s" % rel, (so + se)[-3000:])
     closed = len(re.findall(r"Closed under the global context", so))
@@ -482,7 +513,8 @@ def build_runner(prop):
         return binp
     with open(os.path.join(d, "extract_tmp.v"), "w") as fh:
         fh.write(src)
-    rc, so, se = sh(["coqc", "-R", COQ, "TX", "-w", "-notation-overridden,-extraction", "extract_tmp.v"], cwd=d, timeout=600)
+    with coq_lock():
+        rc, so, se = sh(["coqc", "-R", COQ, "TX", "-w", "-notation-overridden,-extraction", "extract_tmp.v"], cwd=d, timeout=600)
     if rc != 0:
         raise Broken("extraction of the %s model" % prop, (so + se)[-3000:])
     shutil.copy(os.path.join(VERIF, "runner", "driver.ml"), os.path.join(d, "driver.ml"))
